@@ -44,6 +44,7 @@ class Rec:
         v = getattr(o, name)
         if callable(v) and not isinstance(v, type):
             def call(*a, **k):
+                reg.events.append(('call', reg.ident(o), name, sum((_ids(x, reg) for x in list(a) + list(k.values())), [])))
                 a2 = [unwrap(x) for x in a]
                 k2 = {kk: unwrap(x) for kk, x in k.items()}
                 r = v(*a2, **k2)
@@ -54,6 +55,18 @@ class Rec:
         w = wrap(v, reg)
         log[name] = w
         return w
+
+    def __setattr__(self, name, value):
+        o = object.__getattribute__(self, '_o')
+        reg = object.__getattribute__(self, '_reg')
+        reg.events.append(('setattr', reg.ident(o), name, _ids(value, reg)))
+        setattr(o, name, unwrap(value))
+
+    def __setitem__(self, key, value):
+        o = object.__getattribute__(self, '_o')
+        reg = object.__getattribute__(self, '_reg')
+        reg.events.append(('setitem', reg.ident(o), '', _ids(key, reg) + _ids(value, reg)))
+        o[unwrap(key)] = unwrap(value)
 
     def __eq__(self, other):
         return object.__getattribute__(self, '_o') == unwrap(other)
@@ -68,11 +81,21 @@ class Rec:
         return 'Rec(%r)' % (object.__getattribute__(self, '_o'),)
 
 
+def _ids(v, reg):
+    """identities of the (already known) objects among an argument: what an effect is compared on."""
+    if isinstance(v, Rec):
+        return [reg.ident(object.__getattribute__(v, '_o'))]
+    if id(v) in reg.ids:
+        return [reg.ids[id(v)]]
+    return []
+
+
 class Registry:
     def __init__(self):
         self.ids = {}
         self.keep = []
         self.proxies = {}
+        self.events = []
 
     def proxy(self, o):
         k = id(o)
@@ -99,6 +122,9 @@ def qubit_like(v) -> bool:
 
 def wrap(v, reg):
     import numpy as np
+    import types
+    if isinstance(v, types.GeneratorType):
+        v = list(v)
     if is_plain(v) or qubit_like(v) or isinstance(v, Rec):
         return v
     if isinstance(v, np.ndarray):
@@ -129,10 +155,11 @@ def tok(s: str) -> str:
     return s.replace(' ', '_') or '_'
 
 
-def encode(v, reg, depth=0) -> list[str]:
+def encode(v, reg, depth=0, seen=None) -> list[str]:
     import numpy as np
-    if depth > 12:
+    if depth > 40:
         raise NotEncodable('depth')
+    seen = seen if seen is not None else set()
     if isinstance(v, (bool, np.bool_)):
         return ['B', '1' if v else '0']
     if isinstance(v, (int, np.integer)):
@@ -153,26 +180,29 @@ def encode(v, reg, depth=0) -> list[str]:
     if isinstance(v, np.ndarray):
         out = ['A', str(len(v))]
         for x in v:
-            out += encode(x, reg, depth + 1)
+            out += encode(x, reg, depth + 1, seen)
         return out
     if isinstance(v, list):
         out = ['L', str(len(v))]
         for x in v:
-            out += encode(x, reg, depth + 1)
+            out += encode(x, reg, depth + 1, seen)
         return out
     if isinstance(v, tuple):
         out = ['T', str(len(v))]
         for x in v:
-            out += encode(x, reg, depth + 1)
+            out += encode(x, reg, depth + 1, seen)
         return out
     if isinstance(v, Rec):
         o = object.__getattribute__(v, '_o')
+        if id(o) in seen:          # an object met again below itself (parent pointers): identity only
+            return ['O', type(o).__name__, str(reg.ident(o)), '0']
+        seen = seen | {id(o)}
         log = object.__getattribute__(v, '_log')
         bases = [c.__name__ for c in type(o).__mro__[1:] if c is not object and c.__name__ not in ('ABC', 'Generic')]
         out = ['O', type(o).__name__, str(reg.ident(o)), str(len(log) + len(bases))]
         for name, val in log.items():
             out.append(name)
-            out += encode(val, reg, depth + 1)
+            out += encode(val, reg, depth + 1, seen)
         for b in bases:          # what `isinstance(o, b)` answers
             out += ['isinstance:' + b, 'B', '1']
         return out
@@ -481,6 +511,183 @@ def unwrap_result(v):
     return v
 
 
+def _parse(toks, i=0):
+    """parser of the driver's value code → nested python structure (objects as ('O', cls, id))."""
+    t = toks[i]
+    if t == 'I':
+        return int(toks[i + 1]), i + 2
+    if t == 'B':
+        return toks[i + 1] == '1', i + 2
+    if t == 'S':
+        return toks[i + 1], i + 2
+    if t == 'N':
+        return None, i + 1
+    if t == 'X':
+        return ('X',), i + 1
+    if t == 'E':
+        return ('E', toks[i + 1], toks[i + 2]), i + 3
+    if t in ('L', 'T', 'A'):
+        n = int(toks[i + 1])
+        j = i + 2
+        out = []
+        for _ in range(n):
+            v, j = _parse(toks, j)
+            out.append(v)
+        return (list(out) if t != 'T' else tuple(out)), j
+    if t == 'O':
+        n = int(toks[i + 3])
+        j = i + 4
+        for _ in range(n):
+            _, j = _parse(toks, j + 1)
+        return ('O', toks[i + 1], int(toks[i + 2])), j
+    raise ValueError(t)
+
+
+def _obj_ids(v):
+    if isinstance(v, tuple) and len(v) == 3 and v[0] == 'O':
+        return [v[2]]
+    if isinstance(v, (list, tuple)):
+        return sum((_obj_ids(x) for x in v), [])
+    return []
+
+
+def _recv(v):
+    return [v[2]] if isinstance(v, tuple) and len(v) == 3 and v[0] == 'O' else []
+
+
+def lean_effects(line: str):
+    """the driver's effect list projected to (kind, receiver identity, name, identities of object arguments)."""
+    val, _ = _parse(line.split())
+    out = []
+    for ev in val:
+        kind = ev[0]
+        if kind == 'setattr':
+            out.append(('setattr', _recv(ev[1]), ev[2], _obj_ids(ev[3])))
+        elif kind == 'setitem':
+            out.append(('setitem', _recv(ev[1]), '', _obj_ids(ev[2]) + _obj_ids(ev[3])))
+        elif kind == 'call':
+            out.append(('call', _recv(ev[1]), ev[2], sum((_obj_ids(x) for x in ev[3:]), [])))
+    return out
+
+
+def gen_effect_cases(rng, n):
+    """(lean name, args) for the builder functions: real circuits in various states."""
+    from qce_circuit.language.declarative_circuit import DeclarativeCircuit
+    from qce_circuit.structure.circuit_operations import Wait, Rx180, CPhase
+    from qce_circuit.structure.intrf_circuit_operation import RelationLink, RelationType
+    from qce_circuit.structure.registry_repetition import FixedRepetitionStrategy
+    cases = []
+    for _ in range(n):
+        def circ(k, reps=1):
+            c = DeclarativeCircuit(repetition_strategy=FixedRepetitionStrategy(reps))
+            ops = []
+            for _i in range(k):
+                kw = {}
+                if ops and rng.random() < 0.4:
+                    kw['relation'] = RelationLink(rng.choice(ops), rng.choice(list(RelationType)))
+                op = rng.choice([Rx180(rng.randint(0, 2), **kw), Wait(rng.randint(0, 2), **kw)])
+                c.add(op)
+                ops.append(op)
+            return c, ops
+        c, ops = circ(rng.randint(0, 4), rng.randint(1, 3))
+        s, _ = circ(rng.randint(1, 3))
+        if rng.random() < 0.6:
+            c.add(s)
+        st = c.circuit_structure
+        cases.append(('Composite_decomposed', [st]))
+        cases.append(('Composite_apply_modifiers', [DeclarativeCircuit.copy(c).circuit_structure if hasattr(DeclarativeCircuit, 'copy') else st]))
+        c2, _ = circ(rng.randint(0, 3))
+        o2, _ = circ(rng.randint(1, 3))
+        cases.append(('Composite_extend', [c2.circuit_structure, o2.circuit_structure.copy()]))
+        c3, _ = circ(rng.randint(1, 3))
+        cases.append(('Composite_flatten', [c3.circuit_structure]))
+        c4, ops4 = circ(rng.randint(0, 3))
+        kw = {}
+        if ops4 and rng.random() < 0.5:
+            kw['relation'] = RelationLink(rng.choice(ops4 + [Rx180(5)]), rng.choice(list(RelationType)))
+        cases.append(('Graph_add_to_graph', [c4.circuit_structure._circuit_graph, Rx180(rng.randint(0, 3), **kw)]))
+        c5, _ = circ(rng.randint(1, 3))
+        cases.append(('Composite_copy', [c5.circuit_structure, {}]))
+        c6, _ = circ(rng.randint(1, 2))
+        cases.append(('Composite_repeat', [c6.circuit_structure, rng.randint(1, 3)]))
+    return cases
+
+
+def check_effects(seed: int, n: int) -> dict:
+    """effects recorded by `Py.callEffects` on the translated builder functions vs the effects the REAL functions perform on
+    recording proxies: attribute assignments, and the calls the driver lists, compared on (kind, receiver, name, object arguments)."""
+    tg = targets()
+    cases = gen_effect_cases(common.rng_for(seed, 'pysem-effects'), n)
+    lines, expected, descr = [], [], []
+    skipped = 0
+    for name, args in cases:
+        _, module, cls, fn = tg[name]
+        f = real_function(module, cls, fn)
+        reg = Registry()
+        pargs = [wrap(a, reg) if not isinstance(a, dict) else wrap(_DictBox(a), reg) for a in args]
+        try:
+            with warnings.catch_warnings():
+                warnings.simplefilter('ignore')
+                f(*pargs)
+        except Exception:
+            skipped += 1
+            continue
+        try:
+            toks = []
+            for a in pargs:
+                toks += encode(a, reg)
+        except NotEncodable:
+            skipped += 1
+            continue
+        lines.append('py effects ' + name + ' ' + ' '.join(toks))
+        expected.append(list(reg.events))
+        descr.append(name)
+    got = common.run_driver(lines) if lines else []
+    mism = []
+    per_fn = {}
+    n_events = 0
+    for ln, evs, g, name in zip(lines, expected, got, descr):
+        per_fn[name] = per_fn.get(name, 0) + 1
+        try:
+            le = lean_effects(g)
+        except Exception:
+            mism.append({'function': name, 'lean': g[:300], 'why': 'unparsable'})
+            continue
+        n_events += len(le)
+        names = {(k, nm) for k, _, nm, _ in le if k == 'call'}
+        pe = [(k, [r], nm, a) for (k, r, nm, a) in evs if k != 'call' or (k, nm) in names]
+        # python's setattr on a proxy of a local (e.g. `result.add`) cannot be seen for non-proxied receivers: compare the
+        # projection on events whose receiver the driver knows
+        le2 = [e for e in le if e[1]]
+        if [(k, r, nm) for k, r, nm, _ in pe] != [(k, r, nm) for k, r, nm, _ in le2] or \
+                any(set(a_py) - set(a_lean) for (k_, _, nm_, a_lean), (_, _, _, a_py) in zip(le2, pe)
+                    if not (k_ == 'call' and nm_ == 'extend')):   # `repeat` hands a FRESH copy to every `extend`: the recorded
+            #                                                         pseudo-field `copy()` knows only the last one
+            # (object arguments CPython passed must be among those of the recorded effect; the recorded effect may name more:
+            #  objects nested inside a freshly constructed value)
+            mism.append({'function': name, 'cpython': pe[:12], 'lean_interpreter': le2[:12], 'line': ln[:400]})
+    return {'effect_cases': len(lines), 'effect_events': n_events, 'effect_skipped': skipped, 'effect_per_function': per_fn,
+            'effect_mismatches': mism[:6], 'effect_mismatch_count': len(mism)}
+
+
+class _DictBox:
+    """a dict passed as an argument (the copy lookup): item assignments are the effect."""
+    def __init__(self, d):
+        self.d = d
+
+    def __setitem__(self, k, v):
+        self.d[k] = v
+
+    def __getitem__(self, k):
+        return self.d[k]
+
+    def __contains__(self, k):
+        return k in self.d
+
+    def get(self, k, default=None):
+        return self.d.get(k, default)
+
+
 def check(groups: list[str], seed: int, n: int) -> dict:
     """Runs the semantics comparison for the named generator groups. Returns a report dict with `mismatches`."""
     cases = []
@@ -504,5 +711,8 @@ def check(groups: list[str], seed: int, n: int) -> dict:
 if __name__ == '__main__':
     import json
     import sys
+    if sys.argv[1:] == ['effects']:
+        print(json.dumps(check_effects(0, 15), indent=1, default=str)[:6000])
+        sys.exit(0)
     rep = check(sys.argv[1:] or list(GENERATORS), 0, 20)
     print(json.dumps(rep, indent=1)[:6000])
